@@ -320,6 +320,17 @@ Example C06_prefix_trailing_run :
   | _ => False end.
 Proof. vm_compute. repeat split. Qed.
 
+(** [C06_prefix_items_partial]: the items of [c06_doc] followed by [ab$]
+    (text, an unclosed formula) *)
+Example C06_prefix_items_nonvacuous :
+  let fol := [97;98;36] in
+  ok_items default_ctx (walker_state default_ctx) (d_items c06_doc) (hd_error fol) = true /\
+  match parse_top (unparse_items (d_items c06_doc) ++ fol) true default_ctx (walker_state default_ctx) with
+  | Ok (ONode (Some (NList _ _ items))) _ =>
+      firstn 5 items = settled default_ctx (d_items c06_doc) /\ length items = 7%nat
+  | _ => False end.
+Proof. vm_compute. repeat split. Qed.
+
 Print Assumptions C06_prefix_closing_partial.
 Print Assumptions C06_prefix_partial.
 Print Assumptions C06_prefix_items_partial.
